@@ -669,6 +669,11 @@ func (env *SpecEnv) evalCall(x *Expr) Value {
 			return Value{term: fmt.Sprint(a.typ.Underlying().(*types.Array).Len()), typ: mathInt}
 		}
 		env.errorf("len of %s", a.typ)
+	case "pow2":
+		argc(1)
+		a := env.eval(x.Args[0])
+		e.v.needPow2()
+		return Value{term: "(pow2 " + a.term + ")", typ: mathInt}
 	case "chancap":
 		// chancap(ch): the capacity the channel was made with
 		argc(1)
@@ -803,6 +808,11 @@ func (env *SpecEnv) evalCall(x *Expr) Value {
 		argc(1)
 		ch := env.eval(x.Args[0])
 		return Value{term: sel(e.ghostGet(env.cur, ghostSendCount), ch.term), typ: mathInt}
+	case "recvcount":
+		// recvcount(ch): receives completed on ch by this function so far
+		argc(1)
+		ch := env.eval(x.Args[0])
+		return Value{term: sel(e.ghostGet(env.cur, ghostRecvCount), ch.term), typ: mathInt}
 	case "closed":
 		argc(1)
 		ch := env.eval(x.Args[0])
